@@ -6,6 +6,10 @@ Generator self-check: the variant's reference token stream (ignoring NEWLINE
 multiplicity and the spelling of TAB) must equal the base's and the variant must
 still be a sentence; otherwise the edit was not a layout edit and is discarded.
 """
+import os
+import shutil
+import tempfile
+
 from .. import common, content, gen
 
 ID = "C18"
@@ -20,6 +24,7 @@ VARIANTS = {"quick": 4, "thorough": 8}
 MIN_NONTRIVIAL = {"quick": 600, "thorough": 6000}
 REQUIRED_FUNCTIONS = ["listener.py:parse", "listener.py:BlackbirdListener.exitStatement", "listener.py:BlackbirdListener.exitArrayvar", "listener.py:BlackbirdListener.exitForloop"]
 FUNCTIONS = REQUIRED_FUNCTIONS
+REQUIRED_HOOKS = ["variant loaded through load()"]
 REQUIRED_TAGS = ["edit:eol-comment", "edit:own-line-comment", "edit:blank-line", "edit:spaces", "edit:crlf", "edit:cr", "edit:tab-swap", "edit:final-newline",
                  "edit:before-metadata", "edit:inside-loop-body"]
 ASSUMPTIONS = ["an edit is a layout edit iff the grammar-derived lexer yields the same token stream up to NEWLINE multiplicity / TAB spelling and the text stays a sentence"]
@@ -167,6 +172,22 @@ def options_for(rng):
                 layout=0.0, funcs=rng.random() < 0.5, tdm=rng.random() < 0.1)
 
 
+def load_file(text):
+    import blackbird
+
+    d = tempfile.mkdtemp(prefix="bbv-c18-")
+    path = os.path.join(d, "s.xbb")
+    try:
+        with open(path, "w", encoding="utf-8", newline="") as f:
+            f.write(text)
+        try:
+            return blackbird.load(path), None
+        except Exception as e:  # noqa
+            return None, e
+    finally:
+        shutil.rmtree(d, ignore_errors=True)
+
+
 def check_base(ctx, base, rng, nvariants):
     g = common.grammar()
     kind = common.classify(base)
@@ -210,9 +231,16 @@ def check_base(ctx, base, rng, nvariants):
         nt = len(edits) >= 3 and rich
         ctx.case(text, nt, tags=["edit:" + e for e in edits])
         ctx.sample({"base": base, "variant": text, "edits": sorted(edits)}, limit=1)
-        Q, exc = common.real_loads(text)
+        via_file = rng.random() < 0.15
+        if via_file:
+            # the same variant through load(): written as UTF-8 with its line endings untouched
+            witness["via"] = "load"
+            Q, exc = load_file(text)
+            ctx.hook("variant loaded through load()")
+        else:
+            Q, exc = common.real_loads(text)
         if exc is not None:
-            return ctx.violation("variant-raises:" + common.exc_key(exc), "a layout variant (%s) raised %s" % (sorted(edits), common.exc_text(exc)), witness)
+            return ctx.violation("variant-raises:" + common.exc_key(exc), "a layout variant (%s)%s raised %s" % (sorted(edits), " read from a file" if via_file else "", common.exc_text(exc)), witness)
         d = content.diff_real(cb, content.program_content(Q), cfg, variables=True)
         if d:
             return ctx.violation(common.diff_key(d), "layout variant (%s) changed the program: %s" % (sorted(edits), common.diff_text(d)), witness)
@@ -245,7 +273,7 @@ def run(ctx):
 def replay(w):
     g = common.grammar()
     P, e1 = common.real_loads(w["base"])
-    Q, e2 = common.real_loads(w["variant"])
+    Q, e2 = load_file(w["variant"]) if w.get("via") == "load" else common.real_loads(w["variant"])
     if e1 is not None:
         return None
     if e2 is not None:
